@@ -495,6 +495,9 @@ def evaluator_frames_have_parents(ctx):
                     if isinstance(v, ast.Call) and isinstance(v.func, ast.Attribute) and v.func.attr == 'get' and v.args \
                             and p.scope_key(u, v.args[0]) == 'core.glom':
                         may_eval = True
+            if not may_eval and isinstance(f, ast.Call) and isinstance(f.func, ast.Attribute) and f.func.attr == 'get' and f.args \
+                    and p.scope_key(u, f.args[0]) == 'core.glom':
+                may_eval = True        # scope.get(glom, glom)(...) called in place
             if not may_eval:
                 continue
             n_sites += 1
